@@ -782,7 +782,7 @@ func c05Vectors() (cborVecs, coseVecs [][]byte, jsonVecs [][]byte) {
 func TestC05_Cuts(t *testing.T) {
 	st := NewStats("C05", "TestC05_Cuts", "enumeration: every generated base document and every repository test vector (CBOR, COSE incl. the TF-M Sign1/Mac0 tokens, JSON): truncation at every offset; every single-byte substitution (all 256 values) of each of the first 8 bytes; for COSE tokens additionally the same substitutions on the first 8 bytes of the payload inside a re-wrapped envelope; every single byte deleted; every single byte duplicated. Oracle: no panic (decode + exercise). Non-trivial = well-formed or decoded; distinct = family + input")
 	st.Exhaustive = true
-	st.Require = []string{"family=cbor", "family=cose", "family=json", "truncate", "substitute"}
+	st.Require = []string{"family=cbor", "family=cose", "family=json", "truncate", "substitute", "long-run"}
 	defer st.Flush(t)
 	shard, shards := shardInfo()
 	idx := 0
@@ -821,6 +821,25 @@ func TestC05_Cuts(t *testing.T) {
 	do(cborFamilies, cv)
 	do(coseFamilies, ev)
 	do(jsonFamilies, jv)
+	// VERY long inputs (8 MiB) that are one run of an opening item - tag
+	// heads, array / map heads, indefinite heads, byte-string-wrapped tags;
+	// JSON brackets: every entry point returns (a decoder that recurses once
+	// per input byte dies of a stack overflow, which nothing can recover
+	// from - the driver reports the death of the process as the violation)
+	const long = 8 << 20
+	for _, unit := range [][]byte{{0xc0}, {0xc6}, {0xd8, 0x18}, {0xd9, 0xd9, 0xf7}, {0x81}, {0xa1, 0x00}, {0x9f}, {0xbf, 0x00}, {0xd2, 0x84}, {0x5f}} {
+		if mine() {
+			c05Run(st, cborFamilies, bytes.Repeat(unit, long/len(unit)), "long-run").report(t)
+		}
+		if mine() {
+			c05Run(st, coseFamilies, bytes.Repeat(unit, long/len(unit)), "long-run").report(t)
+		}
+	}
+	for _, unit := range []string{"[", "{\"a\":", "[[", " [", "\"", "{", "[1,"} {
+		if mine() {
+			c05Run(st, jsonFamilies, bytes.Repeat([]byte(unit), long/len(unit)), "long-run").report(t)
+		}
+	}
 	// payload-level substitutions inside a valid envelope
 	for _, p := range []Prof{P1, P2} {
 		pl := baseValid(p, 1).WireBytes()
